@@ -12,11 +12,14 @@ import (
 	"reflect"
 	"runtime"
 	"runtime/debug"
+	"strconv"
 	"strings"
 	"sync"
+	"syscall"
 	"testing"
 	"testing/synctest"
 	"time"
+	"unsafe"
 
 	"github.com/vimeo/dials"
 	"github.com/vimeo/dials/decoders/cue"
@@ -62,9 +65,21 @@ type RewLeaf struct {
 	Alias bool `json:"alias,omitempty"`
 }
 
-// Rewrite is one later version of the config file (atomic replace).
+// Rewrite is one later version of the config file and how it is put in place.
 type Rewrite struct {
 	Leaves []RewLeaf `json:"leaves"`
+	// Mech: "" / "rename" (write a temp file, rename it over the path),
+	// "remove-rename" (unlink the file, then temp + rename),
+	// "remove-create" (unlink, then create + write at the path),
+	// "truncate" (truncate in place, then write).  With Layout k8s every
+	// version is installed by a ..data symlink swap instead.
+	Mech string `json:"mech,omitempty"`
+	// Settle: after the unlink / the truncation wait until the watcher has
+	// noticed (inotify queue drained, library goroutines parked) before the
+	// new content appears.
+	Settle bool `json:"settle,omitempty"`
+	// RemoveOld (k8s): remove the previous ..ts-N directory after the swap.
+	RemoveOld bool `json:"remove_old,omitempty"`
 }
 
 // C18Case describes one ez invocation completely.
@@ -83,6 +98,7 @@ type C18Case struct {
 	Leaves    []LeafCase `json:"leaves"`         // in leaf-table order
 	ArgRot    int        `json:"arg_rot"`        // rotation of the argv flag order
 	Rewrites  []Rewrite  `json:"rewrites,omitempty"`
+	Layout    string     `json:"layout,omitempty"`    // "" direct; "k8s": path -> ..data/<base>, ..data -> ..ts-N (Kubernetes AtomicWriter); watch on, valid file only
 	NoBubble  bool       `json:"no_bubble,omitempty"` // watch-off: run in real time instead of a synctest bubble
 }
 
@@ -345,7 +361,22 @@ func genC18(watch bool) func(t *rapid.T) C18Case {
 						}
 					}
 				}
+				switch m := rapid.IntRange(0, 19).Draw(t, "rw_mech"); {
+				case m < 7:
+					rw.Mech = "rename"
+				case m < 13:
+					rw.Mech = "remove-rename"
+				case m < 16:
+					rw.Mech = "remove-create"
+				default:
+					rw.Mech = "truncate"
+				}
+				rw.Settle = rapid.IntRange(0, 3).Draw(t, "rw_settle") != 3
+				rw.RemoveOld = rapid.Bool().Draw(t, "rw_remove_old")
 				c.Rewrites = append(c.Rewrites, rw)
+			}
+			if n > 0 && rapid.IntRange(0, 5).Draw(t, "layout") == 5 {
+				c.Layout = "k8s"
 			}
 		}
 		return c
@@ -462,6 +493,14 @@ func validateCase(c C18Case, td *typeDef) string {
 		if len(rw.Leaves) != len(td.leaves) {
 			return "rewrite leaf count"
 		}
+		switch rw.Mech {
+		case "", "rename", "remove-rename", "remove-create", "truncate":
+		default:
+			return "rewrite mechanism"
+		}
+	}
+	if c.Layout != "" && (c.Layout != "k8s" || !c.Watch || c.FileState != "valid") {
+		return "layout"
 	}
 	// split: a base name from default/env/flag needs a directory from them too
 	var dirL, baseL *LeafCase
@@ -703,11 +742,30 @@ func execCase[T any, TP ez.ConfigWithConfigPath[T]](c C18Case, td *typeDef, bubb
 			}
 			firstContent = malformed(c.Format, c.Malformed, intKey)
 		}
-		if c.FileState != "missing" {
+		if c.Layout == "k8s" {
+			// <dir>/<base> -> ..data/<base>, ..data -> ..ts-0, ..ts-0/<base> regular file
+			kd, kb := filepath.Dir(realPath), filepath.Base(realPath)
+			err := os.Mkdir(filepath.Join(kd, "..ts-0"), 0o755)
+			if err == nil {
+				err = os.WriteFile(filepath.Join(kd, "..ts-0", kb), []byte(firstContent), 0o644)
+			}
+			if err == nil {
+				err = os.Symlink("..ts-0", filepath.Join(kd, "..data"))
+			}
+			if err == nil {
+				err = os.Symlink(filepath.Join("..data", kb), realPath)
+			}
+			if err != nil {
+				return vrt.Discardf("harness: k8s layout: %v", err)
+			}
+		} else if c.FileState != "missing" {
 			if err := os.WriteFile(realPath, []byte(firstContent), 0o644); err != nil {
 				return vrt.Discardf("harness: write config: %v", err)
 			}
 		}
+	}
+	if c.Layout == "k8s" && !havePath {
+		return vrt.Discardf("malformed case: k8s layout without a config path")
 	}
 
 	// ------------------------------------------------------------ environment
@@ -1098,9 +1156,25 @@ func execCase[T any, TP ez.ConfigWithConfigPath[T]](c C18Case, td *typeDef, bubb
 	}
 
 	// ---- Verify log against the initial full stack
+	// Verify calls with an index in one of these ranges happened while the
+	// file was being rewritten NON-atomically (truncate / create + write): the
+	// watcher may legitimately have read an empty or partial file then.
+	var exempt [][2]int
+	looseFrom := -1 // >= 0: a non-atomic rewrite is in progress since this index
+	var transients []*T
 	checkVerifyLog := func(legit []*T, what string) *vrt.Verdict {
 		for k, e := range recd.snapshot() {
 			x := e.(*T)
+			if looseFrom >= 0 && k >= looseFrom {
+				continue
+			}
+			skip := false
+			for _, r := range exempt {
+				skip = skip || (k >= r[0] && k < r[1])
+			}
+			if skip {
+				continue
+			}
 			ok := false
 			for _, l := range legit {
 				ok = ok || eq(x, l)
@@ -1266,14 +1340,100 @@ func execCase[T any, TP ez.ConfigWithConfigPath[T]](c C18Case, td *typeDef, bubb
 			}
 		}
 		nBefore := len(recd.snapshot())
-		tmpName := filepath.Join(filepath.Dir(realPath), ".tmp-c18")
-		if err := os.WriteFile(tmpName, []byte(content), 0o644); err != nil {
-			return vrt.Discardf("harness: write rewrite: %v", err)
+		rw := c.Rewrites[r-1]
+		mech := rw.Mech
+		if mech == "" {
+			mech = "rename"
 		}
-		if err := os.Rename(tmpName, realPath); err != nil {
-			return vrt.Discardf("harness: rename rewrite: %v", err)
+		if c.Layout == "k8s" {
+			mech = "swap"
 		}
-		what := fmt.Sprintf("rewrite %d", r)
+		if !validR && (mech == "truncate" || mech == "remove-create") {
+			// while a file is rewritten in place the view may legitimately
+			// move to the stack of an empty / partial file; with a version
+			// Verify rejects the final view would be unknowable: install
+			// this one atomically
+			mech = "rename"
+		}
+		what := fmt.Sprintf("rewrite %d (%s)", r, mech)
+		labels = append(labels, "rewrite-mech="+mech)
+		kd, kb := filepath.Dir(realPath), filepath.Base(realPath)
+		renameOver := func() error {
+			tmpName := filepath.Join(kd, ".tmp-c18")
+			if err := os.WriteFile(tmpName, []byte(content), 0o644); err != nil {
+				return err
+			}
+			return os.Rename(tmpName, realPath)
+		}
+		// the watcher has noticed: nothing may have moved (no Verify, same view)
+		noticed := func(state string) {
+			if !rw.Settle {
+				return
+			}
+			if settleWatcher(2 * time.Second) {
+				labels = append(labels, "watcher-noticed:"+state)
+			} else {
+				labels = append(labels, "not-settled:"+state)
+			}
+		}
+		var instErr error
+		switch mech {
+		case "rename":
+			instErr = renameOver()
+		case "swap":
+			ts := fmt.Sprintf("..ts-%d", r)
+			instErr = os.Mkdir(filepath.Join(kd, ts), 0o755)
+			if instErr == nil {
+				instErr = os.WriteFile(filepath.Join(kd, ts, kb), []byte(content), 0o644)
+			}
+			if instErr == nil {
+				instErr = os.Symlink(ts, filepath.Join(kd, "..data_tmp"))
+			}
+			if instErr == nil {
+				instErr = os.Rename(filepath.Join(kd, "..data_tmp"), filepath.Join(kd, "..data"))
+			}
+			if instErr == nil && rw.RemoveOld {
+				instErr = os.RemoveAll(filepath.Join(kd, fmt.Sprintf("..ts-%d", r-1)))
+				labels = append(labels, "k8s-old-dir-removed")
+			}
+		case "remove-rename", "remove-create":
+			instErr = os.Remove(realPath)
+			if instErr != nil {
+				break
+			}
+			noticed("file-missing")
+			// While the file is missing the file source has nothing to report
+			// (sources/file watchLoop: a not-exist error just resumes the
+			// loop): the view stays at the last good config, Verify is not
+			// called.  This holds whether or not the watcher has looked yet.
+			if got := d.View(); !eq(got, cur) {
+				return vrt.KeyedViolationf("view-changed-while-file-missing", "%s: the config file was removed and the view changed from %+v to %+v", what, deref(cur), deref(got)).With(nonTrivial, labels...)
+			}
+			if n := len(recd.snapshot()); n != nBefore {
+				return vrt.KeyedViolationf("verify-while-file-missing", "%s: Verify ran %d time(s) while the config file did not exist", what, n-nBefore).With(nonTrivial, labels...)
+			}
+			if mech == "remove-rename" {
+				instErr = renameOver()
+			} else {
+				looseFrom = nBefore
+				instErr = os.WriteFile(realPath, []byte(content), 0o644) // create, then one write
+			}
+		case "truncate":
+			looseFrom = nBefore
+			var f *os.File
+			f, instErr = os.OpenFile(realPath, os.O_WRONLY|os.O_TRUNC, 0o644)
+			if instErr != nil {
+				break
+			}
+			noticed("file-truncated")
+			_, instErr = f.Write([]byte(content))
+			if cerr := f.Close(); instErr == nil {
+				instErr = cerr
+			}
+		}
+		if instErr != nil {
+			return vrt.Discardf("harness: %s: %v", what, instErr)
+		}
 		deadline := time.Now().Add(10 * time.Second)
 		converged := false
 		for it := 0; ; it++ {
@@ -1305,11 +1465,25 @@ func execCase[T any, TP ez.ConfigWithConfigPath[T]](c C18Case, td *typeDef, bubb
 			got := d.View()
 			if allParked3() {
 				if eq(got, want) {
-					return vrt.KeyedViolationf("verify-skipped-on-rewrite", "%s: 10 s after the file was atomically replaced every library goroutine is parked (3 dumps 300 ms apart), the view is as expected (%+v) but Verify never ran on the new stack %+v", what, *got, *fullR).With(nonTrivial, labels...)
+					return vrt.KeyedViolationf("verify-skipped-on-rewrite", "%s: 10 s after the new version was put in place every library goroutine is parked (3 dumps 300 ms apart), the view is as expected (%+v) but Verify never ran on the new stack %+v", what, *got, *fullR).With(nonTrivial, labels...)
 				}
-				return vrt.KeyedViolationf("lost-update", "%s: 10 s after the file was atomically replaced, every library goroutine is parked (3 dumps 300 ms apart) and the view is %+v, want %+v; Verify calls since the rewrite: %d\nfile:\n%s", what, *got, *want, len(recd.snapshot())-nBefore, content).With(nonTrivial, labels...)
+				return vrt.KeyedViolationf("lost-update", "%s: 10 s after the new version was put in place, every library goroutine is parked (3 dumps 300 ms apart) and the view is %+v, want %+v; Verify calls since the rewrite: %d\nfile:\n%s", what, deref(got), deref(want), len(recd.snapshot())-nBefore, content).With(nonTrivial, labels...)
 			}
 			return vrt.Discardf("inconclusive: %s not converged after 10 s while library goroutines are still runnable", what)
+		}
+		if looseFrom >= 0 {
+			// every Verify of the window precedes the one on the final
+			// content (later reads of the file find it unchanged): the
+			// receivers seen so far are the legitimate transients
+			all := recd.snapshot()
+			for _, e := range all[looseFrom:] {
+				if x := e.(*T); !eq(x, fullR) {
+					transients = append(transients, x)
+					labels = append(labels, "transient-stack-during-in-place-rewrite")
+				}
+			}
+			exempt = append(exempt, [2]int{looseFrom, len(all)})
+			looseFrom = -1
 		}
 		// a rejected version must leave the view alone; an accepted one must stay
 		if !settle(2 * time.Second) {
@@ -1320,13 +1494,13 @@ func execCase[T any, TP ez.ConfigWithConfigPath[T]](c C18Case, td *typeDef, bubb
 		}
 		keep(d.View(), fmt.Sprintf("the View() after rewrite %d", r))
 		if got := d.View(); !eq(got, want) {
-			return vrt.KeyedViolationf("rewrite-precedence", "%s: the view is %+v, want %+v\n%s(file:\n%s)", what, *got, *want, leafDiff(td, got, want), content).With(nonTrivial, labels...)
+			return vrt.KeyedViolationf("rewrite-precedence", "%s: the view is %+v, want %+v\n%s(file:\n%s)", what, deref(got), deref(want), leafDiff(td, got, want), content).With(nonTrivial, labels...)
 		}
 		for drained := false; !drained; {
 			select {
 			case ev := <-d.Events():
 				keep(ev, fmt.Sprintf("an Events() value after rewrite %d", r))
-				if !memberOf(ev, legit) {
+				if !memberOf(ev, legit) && !memberOf(ev, transients) {
 					return vrt.KeyedViolationf("events-foreign", "%s: Events() delivered %s, which is not a full stack of any file version", what, describe(ev)).With(nonTrivial, labels...)
 				}
 			default:
@@ -1342,14 +1516,14 @@ func execCase[T any, TP ez.ConfigWithConfigPath[T]](c C18Case, td *typeDef, bubb
 		news, errs := log.snapshot()
 		for _, n := range news {
 			for _, x := range n {
-				if x != nil && !memberOf(x, legit) {
+				if x != nil && !memberOf(x, legit) && !memberOf(x, transients) {
 					return vrt.KeyedViolationf("callback-foreign", "OnNewConfig(old=%s, new=%s): not full stacks of a file version", describe(n[0]), describe(n[1])).With(nonTrivial, labels...)
 				}
 			}
 		}
 		for _, e := range errs {
 			for _, x := range []*T{e.old, e.new} {
-				if x != nil && !memberOf(x, legit) {
+				if x != nil && !memberOf(x, legit) && !memberOf(x, transients) {
 					return vrt.KeyedViolationf("callback-foreign", "OnWatchedError(%v, old=%s, new=%s): not full stacks of a file version", e.err, describe(e.old), describe(e.new)).With(nonTrivial, labels...)
 				}
 			}
@@ -1515,6 +1689,55 @@ func settle(max time.Duration) bool {
 	}
 }
 
+// inotifyQueued is the number of bytes of events waiting in the kernel queues
+// of all inotify descriptors of the process (FIONREAD; consumes nothing).
+func inotifyQueued() int {
+	ents, err := os.ReadDir("/proc/self/fd")
+	if err != nil {
+		return 0
+	}
+	total := 0
+	for _, e := range ents {
+		if l, err := os.Readlink("/proc/self/fd/" + e.Name()); err != nil || l != "anon_inode:inotify" {
+			continue
+		}
+		fd, err := strconv.Atoi(e.Name())
+		if err != nil {
+			continue
+		}
+		var n int32
+		if _, _, en := syscall.Syscall(syscall.SYS_IOCTL, uintptr(fd), 0x541B /* FIONREAD */, uintptr(unsafe.Pointer(&n))); en == 0 {
+			total += int(n)
+		}
+	}
+	return total
+}
+
+// settleWatcher waits until the file watcher has seen everything that
+// happened to the file system so far: no inotify event is queued in the kernel
+// and every library goroutine is parked, in three consecutive looks.  A false
+// return only means "not known" and never decides a verdict.
+func settleWatcher(max time.Duration) bool {
+	deadline := time.Now().Add(max)
+	quiet := 0
+	for {
+		runtime.Gosched()
+		_, busy := libGoroutines()
+		if busy == 0 && inotifyQueued() == 0 {
+			quiet++
+			if quiet >= 3 {
+				return true
+			}
+		} else {
+			quiet = 0
+		}
+		if time.Now().After(deadline) {
+			return false
+		}
+		time.Sleep(200 * time.Microsecond)
+	}
+}
+
 // waitLibGone waits (bounded) for every library goroutine to exit after the
 // context was cancelled, so the next case starts clean.
 func waitLibGone(max time.Duration) bool {
@@ -1562,7 +1785,8 @@ var c18Assumptions = []string{
 	"layer values are simple tokens (letters, digits), positive/negative integers, millisecond durations, x.5 floats and two-element string sets, so no decoder/parse corner case interferes",
 	"file keys, environment names and flag names are written down in the harness (dials tags; UPPER_SNAKE of the flattened path; kebab-joined path), not read from the library",
 	"missing/malformed file: ez documents only that SetSource 'will fail if the file source fails'; the check requires a non-nil error and a nil Dials, not a particular error",
-	"later file versions are installed by write-to-temp + rename in the same directory (an in-place truncate+write legitimately exposes an empty file, i.e. the intermediate)",
+	"an in-place rewrite (truncate + write, create + write) legitimately exposes an empty or partial file, i.e. possibly the intermediate: the Verify receivers of that window (exactly those recorded before the Verify on the final content) and the callback / Events values equal to them are accepted, and such a version is only installed in place when Verify accepts it (otherwise by rename)",
+	"while the config file does not exist the file source reports neither a value nor an error (read off sources/file watchLoop on the unmodified tree), so the view stays and Verify does not run; whether the watcher has already noticed the removal is established by FIONREAD == 0 on the inotify descriptors plus parked goroutines and only labels the case",
 	"cases run sequentially; environment, flag.CommandLine and os.Args are restored at the end of every Run",
 }
 
@@ -1582,7 +1806,9 @@ func TestC18Watch(t *testing.T) {
 	defer func() { c18T = nil }()
 	vrt.Check(t, vrt.Prop[C18Case]{
 		ID: "C18", Name: "watch",
-		Rule: "watch on, 0-3 later atomic replacements of the file (each with its own leaf subset and fresh values, so later versions OMIT keys earlier versions set and the leaf must fall back to env / flag / default, also below a non-nil default pointer; some rejected by Verify); after each the view must converge to flag > env > NEW file > default " +
+		Rule: "watch on, 0-3 later versions of the file (each with its own leaf subset and fresh values, so later versions OMIT keys earlier versions set and the leaf must fall back to env / flag / default, also below a non-nil default pointer; some rejected by Verify), " +
+			"put in place by temp + rename-over, by unlink - (wait until the watcher has noticed: inotify queue drained, library goroutines parked) - temp + rename, by unlink - wait - create + write, by truncate in place - wait - write, or, in the Kubernetes AtomicWriter layout (path -> ..data/<base>, ..data -> ..ts-N), by a ..data symlink swap with or without removal of the old directory; " +
+			"while the file is missing the view must stay at the last good config and Verify must not run (the file source reports nothing for a missing file); Verify receivers seen while a file is rewritten in place (truncate / create + write: an empty or partial file is legitimately readable) are exempt from the membership rule but the final view is not; after each the view must converge to flag > env > NEW file > default " +
 			"(or stay, when Verify rejects the new stack), every Verify receiver / Events value / callback argument must be a full stack of some file version; convergence is polled, a 10 s stall is a violation only if three goroutine dumps 300 ms apart show every library goroutine parked, otherwise the case is discarded as inconclusive. " + c18Rule,
 		Assumptions: c18Assumptions,
 		Gen:         genC18(true), Run: runC18,
